@@ -439,6 +439,9 @@ func c13NilErrAtoms(fn *ssa.Function) []c13Atom {
 	}
 	var out []c13Atom
 	for _, a := range RetAtoms(fn, idx) {
+		if pv := c13PassThrough(a.Val); pv != a.Val { // the error handed through a pass-through helper / local closure
+			a.Val = pv
+		}
 		if ErrNilStatus(a.Val, 0) == NonNil {
 			continue
 		}
@@ -1607,4 +1610,159 @@ func c13PredicateImplies(kf *c13Frame, base func(fn *ssa.Function, sets []map[ss
 		}
 	}
 	return ht, hf
+}
+
+// ---------- tolerance helpers, pass-through helpers ----------
+
+// c13ToleranceHelper: h(err, …) error returns nil only when its error
+// parameter is nil or is one of the sentinels it compares it with (==,
+// errors.Is), and otherwise returns the parameter itself.  Returns the index
+// of the error parameter and the sentinel names; ok=false if h is not of that form.
+func c13ToleranceHelper(h *ssa.Function) (pidx int, sentinels []string, ok bool) {
+	if h == nil || !inModule(h) || len(h.Blocks) == 0 || !c13ResultsAre(h, [2]string{"", "error"}) {
+		return -1, nil, false
+	}
+	for i, p := range h.Params {
+		if !isErrorType(p.Type()) {
+			continue
+		}
+		al := Aliases(p)
+		names := map[string]bool{}
+		for _, iff := range Ifs(h) {
+			cond, _, _ := ifEdges(iff)
+			switch cnd := cond.(type) {
+			case *ssa.Call:
+				if CalleeName(cnd) == "errors.Is" && len(cnd.Call.Args) == 2 && al[cnd.Call.Args[0]] {
+					if n := sentinelName(cnd.Call.Args[1]); n != "" {
+						names[n] = true
+					}
+				}
+			case *ssa.BinOp:
+				if al[cnd.X] {
+					if n := sentinelName(cnd.Y); n != "" {
+						names[n] = true
+					}
+				} else if al[cnd.Y] {
+					if n := sentinelName(cnd.X); n != "" {
+						names[n] = true
+					}
+				}
+			}
+		}
+		if len(names) == 0 {
+			continue
+		}
+		var list []string
+		for n := range names {
+			list = append(list, n)
+		}
+		sort.Strings(list)
+		tol := toleratedEdges(h, al, list)
+		nilE, _, _ := NilTests(h, al)
+		good := true
+		for _, a := range RetAtoms(h, 0) {
+			if al[a.Val] || al[strip(a.Val)] {
+				continue
+			}
+			if isNilConst(a.Val) && !c13AtomReach(h.Blocks[0], 0, a, newCut().Edges(tol...).Edges(nilE...)) {
+				continue
+			}
+			good = false
+		}
+		if good {
+			return i, list, true
+		}
+	}
+	return -1, nil, false
+}
+
+// c13PassThrough resolves an error value that is the result of a helper /
+// local closure returning one of its parameters unchanged on every path
+// (`fail := func(err error) (T, error) { cleanup(); return nil, err }`) to the
+// argument handed in.
+func c13PassThrough(v ssa.Value) ssa.Value {
+	for i := 0; i < 4; i++ {
+		var call *ssa.Call
+		idx := 0
+		switch u := v.(type) {
+		case *ssa.Extract:
+			c, ok := u.Tuple.(*ssa.Call)
+			if !ok {
+				return v
+			}
+			call, idx = c, u.Index
+		case *ssa.Call:
+			call = u
+		default:
+			return v
+		}
+		var F *ssa.Function
+		if f := StaticCallee(call); f != nil {
+			F = f
+		} else if !call.Call.IsInvoke() {
+			for _, r := range Roots(call.Call.Value) {
+				if mc, ok := r.(*ssa.MakeClosure); ok {
+					F = mc.Fn.(*ssa.Function)
+				}
+			}
+		}
+		if F == nil || len(F.Blocks) == 0 || !inModule(F) || idx >= F.Signature.Results().Len() || len(F.Params) != len(call.Call.Args) {
+			return v
+		}
+		pj := -1
+		for _, a := range RetAtoms(F, idx) {
+			p, ok := a.Val.(*ssa.Parameter)
+			if !ok {
+				return v
+			}
+			j := -1
+			for k, q := range F.Params {
+				if q == p {
+					j = k
+				}
+			}
+			if j < 0 || (pj >= 0 && pj != j) {
+				return v
+			}
+			pj = j
+		}
+		if pj < 0 {
+			return v
+		}
+		v = call.Call.Args[pj]
+	}
+	return v
+}
+
+// c13ToleratedReturns: the values of fn that are `tolerate(err)` for an error
+// of errAl and a tolerance helper whose sentinels are all in `tolerated`:
+// returning such a value is "nil exactly for the tolerated sentinels, else the error".
+func c13ToleratedReturns(fn *ssa.Function, errAl map[ssa.Value]bool, tolerated []string) map[ssa.Value]bool {
+	tol := map[string]bool{}
+	for _, t := range tolerated {
+		tol[t] = true
+	}
+	out := map[ssa.Value]bool{}
+	for _, ci := range Calls(fn, func(string) bool { return true }) {
+		call, isCall := ci.(*ssa.Call)
+		if !isCall {
+			continue
+		}
+		pidx, sents, ok := c13ToleranceHelper(StaticCallee(ci))
+		if !ok || pidx >= len(call.Call.Args) || !errAl[call.Call.Args[pidx]] {
+			continue
+		}
+		all := true
+		for _, s := range sents {
+			if !tol[s] {
+				all = false
+			}
+		}
+		if all {
+			for a := range Aliases(call) {
+				out[a] = true
+			}
+		}
+	}
+	return out
 }
